@@ -117,7 +117,30 @@ type exchangeSpec struct {
 	clientCloseAfterBody             int  // >0: client closes after reading that many body bytes (backend stalled mid-body)
 }
 
-const hangLimit = 15 * time.Second
+// A hang is declared after hangTicks waits of hangTick each, counted by this goroutine as it is actually scheduled:
+// a stall of the whole process (a paused virtual machine, a starved host) costs one tick however long it lasts,
+// which a single wall-clock timeout would mistake for a hang.
+const (
+	hangTick  = 100 * time.Millisecond
+	hangTicks = 150
+)
+
+// waitFor waits for ch to be closed; false means a hang.
+func waitFor(ch <-chan struct{}) bool {
+	for i := 0; i < hangTicks; i++ {
+		select {
+		case <-ch:
+			return true
+		case <-time.After(hangTick):
+		}
+	}
+	select {
+	case <-ch:
+		return true
+	default:
+		return false
+	}
+}
 
 // runExchange plays one request through a fresh proxy and backend.
 func runExchange(spec exchangeSpec) exchangeResult {
@@ -321,6 +344,7 @@ func runExchange(spec exchangeSpec) exchangeResult {
 		raw  string
 	}
 	rd := make(chan readResult, 1)
+	rdDone := make(chan struct{})
 	go func() {
 		var rr readResult
 		var raw bytes.Buffer
@@ -343,33 +367,29 @@ func runExchange(spec exchangeSpec) exchangeResult {
 			}
 		}
 		rd <- rr
+		close(rdDone)
 	}()
 	if spec.clientCloseWhenBackendHasRequest {
-		select {
-		case <-backendGotRequest:
-		case <-time.After(hangLimit):
+		if !waitFor(backendGotRequest) {
 			res.hung = "backend never received the request"
 		}
 		cc.Close()
 	}
-	select {
-	case rr := <-rd:
+	if waitFor(rdDone) {
+		rr := <-rd
 		res.clientErr = rr.err
 		if rr.resp != nil {
 			res.status, res.header, res.body, res.bodyErr, res.rawHead = rr.resp.StatusCode, rr.resp.Header, rr.body, rr.berr, rr.raw
 		}
-	case <-time.After(hangLimit):
+	} else {
 		res.hung = "client got neither a response nor a closed connection"
 	}
-	select {
-	case <-handlerDone:
+	if waitFor(handlerDone) {
 		mu.Lock()
 		res.handlerDone = true
 		mu.Unlock()
-	case <-time.After(hangLimit):
-		if res.hung == "" {
-			res.hung = "proxy handler did not return"
-		}
+	} else if res.hung == "" {
+		res.hung = "proxy handler did not return"
 	}
 	cc.Close()
 	close(releaseBackend)
